@@ -1,6 +1,7 @@
 import Grexv.Model.Format
 import Grexv.Lemmas.Presentation
 import Grexv.Lemmas.EndToEnd
+import Grexv.Lemmas.RepPresent
 
 /-!
 # C06 — verbose mode, capturing groups and escaping are presentation only (text-level facts)
@@ -126,6 +127,27 @@ theorem verbose_same_language (cfg : Config) (hp : PlainPrintCI cfg) (env : Env)
       Spec.parse (fmtRegExp (withVerb cfg false) st0.finalAst) = some (⟨cfg.ci, false⟩, P0) ∧
       Spec.fullMatch cfg.ci PV s = Spec.fullMatch cfg.ci P0 s :=
   Grexv.verbose_same_language cfg hp env ws stV st0 hV h0 hseg hne s hs
+
+/-- **C06 with repetition conversion (capturing groups and `-e` are presentation only — language level, all inputs)** two builds with
+`-r` whose settings agree in the thresholds, the class options and `-i` — they may differ in capturing groups, in `-e` and in which
+single anchor is disabled; plain printing; stored test cases of at most 1000 graphemes, one of them non-empty — return texts the model
+of `Regex::new` accepts, and the two compiled patterns match exactly the same strings of scalar values in full: each matches what the
+labels of the same minimised automaton spell (`C05.repetitions_language_exact`).  Verbose mode with `-r` is not covered by a theorem. -/
+theorem presentation_same_language_with_repetitions (c1 c2 : Config) (hp1 : RepPrint c1) (hp2 : RepPrint c2)
+    (hsame : SameClusterInputs c1 c2) (env : Env) (ws : List Str) (st1 st2 : Stages)
+    (h1 : regExpFrom c1 env ws = .ok st1) (h2 : regExpFrom c2 env ws = .ok st2)
+    (hseg : ∀ w ∈ storedCases c1 env ws, SegOK env w)
+    (hlen : ∀ w ∈ storedCases c1 env ws, (clusterOfPieces (env.segOf w)).length ≤ 1000)
+    (hne : ∃ t ∈ storedCases c1 env ws, t ≠ []) (s : Str) (hs : ∀ c ∈ s, Scalar c) :
+    ∃ P1 P2, Spec.parse (fmtRegExp c1 st1.finalAst) = some (⟨c1.ci, false⟩, P1) ∧
+      Spec.parse (fmtRegExp c2 st2.finalAst) = some (⟨c1.ci, false⟩, P2) ∧
+      Spec.fullMatch c1.ci P1 s = Spec.fullMatch c1.ci P2 s :=
+  rep_presentation_same_language c1 c2 hp1 hp2 hsame env ws st1 st2 h1 h2 hseg
+    (fun w hw => by have := hlen w hw; rwa [clusterOfPieces_eq, List.length_map] at this) hne s hs
+
+example : RepPrint { rep := true, word := true } ∧ RepPrint { rep := true, word := true, cap := true, esc := true, noEnd := true } ∧
+    SameClusterInputs { rep := true, word := true } { rep := true, word := true, cap := true, esc := true, noEnd := true } :=
+  ⟨⟨rfl, by decide, rfl, rfl, rfl, rfl⟩, ⟨rfl, by decide, rfl, rfl, rfl, rfl⟩, by simp [SameClusterInputs]⟩
 
 /-- **C06 (verbose mode with both anchors disabled as well)** whichever expression the self-check keeps, the verbose text is
 accepted under `(?x)`, matches in full nothing but (generalised) test cases and matches every non-empty one -/
